@@ -120,6 +120,21 @@ def run_bin(ws, crate, args=(), timeout=3600):
 MODULES = {"C10": "gen_c10", "C17": "gen_c17", "C18": "gen_c18", "C19": "gen_c19", "C20": "gen_c20", "C11": "gen_c11", "C15": "gen_c15", "C01": "gen_c01"}
 
 
+COMBINED = {"C20", "C11", "C15"}
+
+
+def merge_reports(a, b):
+    out = dict(b)
+    for k in ("states", "transitions", "traces", "evaluations", "distinct_nontrivial", "distinct_outcomes", "range_checks", "utf8_checks", "violations_total"):
+        out[k] = int(a.get(k, 0)) + int(b.get(k, 0))
+    for k in ("samples", "nontrivial_samples", "notes", "violations", "machinery_errors", "caps_hit"):
+        out[k] = list(a.get(k, [])) + list(b.get(k, []))
+    out["rule"] = "[native stage] " + a.get("rule", "") + " || [program stage] " + b.get("rule", "")
+    out["bounds"] = "[native stage] " + a.get("bounds", "") + " || [program stage] " + b.get("bounds", "")
+    out["engines"] = a.get("engines", {})
+    return out
+
+
 def setup():
     os.makedirs(GEN, exist_ok=True)
 
@@ -131,6 +146,11 @@ def check(pid, tier, seed, drv):
     mod = importlib.import_module(MODULES[pid])
     t0 = time.time()
     rep = mod.run(tier, seed, drv)
+    if pid in COMBINED and not rep.get("machinery_errors"):
+        # native (rt) stage of the same property: merged into one verdict / one evidence file
+        drv["build_rt"]()
+        rt = drv["run_rt"](pid, tier, 3 * 3600)
+        rep = merge_reports(rt, rep)
     if rep.get("machinery_errors"):
         for e in rep["machinery_errors"][:10]:
             print("MACHINERY:", e)
@@ -265,6 +285,24 @@ pub fn cu(f: impl FnOnce() -> String) -> String {
         Err(e) => format!("panic: {}", e.downcast_ref::<&str>().map(|s| s.to_string()).or_else(|| e.downcast_ref::<String>().cloned()).unwrap_or_default()),
     }
 }
+
+pub fn js(x: &str) -> String {
+    let mut s = String::with_capacity(x.len() + 2);
+    s.push('"');
+    for c in x.chars() {
+        match c {
+            '"' => s.push_str("\\\""),
+            '\\' => s.push_str("\\\\"),
+            '\n' => s.push_str("\\n"),
+            '\r' => s.push_str("\\r"),
+            '\t' => s.push_str("\\t"),
+            c if (c as u32) < 0x20 || c as u32 == 0x7F => s.push_str(&format!("\\u{:04x}", c as u32)),
+            c => s.push(c),
+        }
+    }
+    s.push('"');
+    s
+}
 /// a program returns its cases: (case description, konst outcome, reference outcome)
 pub struct Prog { pub id: u32, pub f: fn() -> Vec<(String, String, String)> }
 
@@ -277,7 +315,7 @@ pub fn run(progs: &[Prog]) {
         let mut outcomes = std::collections::HashSet::new();
         for (c, k, s) in &cases {
             outcomes.insert(k.clone());
-            if k != s { bad += 1; if first == "null" { first = format!("{{\"case\":{:?},\"konst\":{:?},\"std\":{:?}}}", c, k, s); } }
+            if k != s { bad += 1; if first == "null" { first = format!("{{\"case\":{},\"konst\":{},\"std\":{}}}", js(c), js(k), js(s)); } }
         }
         println!("{{\"id\":{},\"n\":{},\"bad\":{},\"outcomes\":{},\"first_bad\":{}}}", p.id, cases.len(), bad, outcomes.len(), first);
     }
